@@ -70,3 +70,24 @@ NOT_CLAIMED['C06'] = ('EC half pending (CheckValidECKey / CheckWeakCurve: validK
                       'sizes_iff (flagged <-> n < 2^2047), exponent_iff (all byte encodings), hasDlog_iff, roca_iff, rocaVariant_iff, openssl_iff (every digest oracle, every list), '
                       'keypair_step (every table, every generator oracle), %X formatting lemmas, roca_tuples_spec and the exact acceptance rates; harness/corr/c06.py '
                       '(correspondence_rsa) is the correspondence; `./check C06` runs it. Shipped keypair table coverage (768 seeds) is a finite data check in the thorough tier.')
+
+claim('C20',
+      'Lean theorems (Props/C20.lean) over an exact model of every generator class of randomness_tests/rng.py: for every n (no bound), every integer seed '
+      '(and, via the *_unseeded theorems, every state the seed=None path can draw from os.urandom) and every constructor parameter, RandomBits(n) < 2^n for '
+      'XorShift128plus, XorShiftStar, Xorwow, JavaRandom, LcgNist, Mwc, Lehmer and the repaired TruncLcgRand; for the wrappers Urandom, Shake128, Mt19937, '
+      'NumpyRng (pcg64/philox/sfc64), SubsetSum the same for EVERY oracle answer of the promised length. JavaRandom.RandomBits(n, seed) equals '
+      'new BigInteger(n, new java.util.Random(seed)) as transcribed from the Java SE documentation / OpenJDK into BitVec 64/32/8 semantics (java_spec, all n, all seeds; '
+      'the spec itself reproduces the real-Java outputs recorded in rng_test). The repaired TruncLcgRand equals the low n bits of the concatenated high halves of the LCG states '
+      '(GMP lc_2exp-style, byte-framed); the pinned one coincides with it for n % 8 = 0. registry_covered: every entry of the CURRENT rng.RNGS (regenerated constants) is one of the '
+      'modelled classes with constructor attributes equal to the modelled constructor and meeting all side conditions. '
+      'KNOWN FINDING D5: the pinned TruncLcgRand.RandomBits returns values >= 2^n for n % 8 != 0 (truncLcg_range_fails, kernel-evaluated witness TruncLcgRand(20), n=63, seed=123456 -> 0xA3A607D44D04A862); '
+      'for it only truncLcg_range_partial (< 2^(8*ceil(n/8)); < 2^n when n % 8 = 0) is claimed. '
+      'Purity holds by construction (the models are functions of (parameters, n, seed[, oracle])); the correspondence run ties the model to /repo on every registry name x n in 1..300 + all residues mod 64 up to 2048 + '
+      'sizes up to 2^16 (thorough: all 1..2048 + 64 residues up to 2^16) x 3 random non-zero seeds (16-bit, 64-bit, >160-bit) + 32 boundary/negative seeds, seed=None/0 paths through recorded os.urandom, '
+      'adversarial oracles, and checks range and reproducibility under repeated, shuffled and A,B,A interleaved calls directly on the implementation.',
+      'Trusted: Lean kernel, correspondence harness, transcription of the Java documentation (Spec/JavaRandom.lean) and of the GMP manual (Spec/TruncLcg.lean). '
+      'os.urandom, SHAKE128, MT19937 (random.getrandbits) and the numpy bit generators are oracles, not modelled: only their output length (getrandbits: < 2^n) is assumed; seeded ones are re-derived independently by the harness. '
+      'Urandom and SubsetSum ignore the seed by design (`del seed`), so the reproducibility clause is not applicable to them and not claimed. numpy rejects negative seeds (ValueError); negative seeds are exercised on all other generators. '
+      'Not GMP-bit-compatible by design of rng.py: multipliers from L\'Ecuyer/Steele-Vigna, whole-byte framing of each output. Lehmer(bits=0) does not terminate in Python and is outside the model.',
+      'Lean 4 proofs (range, model = Java/LCG specification, counter-example for the pinned TruncLcgRand) over an executable model + dual-variant differential correspondence with the Python implementation',
+      'DESIGN.md section 5 C20, section 3.8, section 6 D5')
